@@ -1,4 +1,6 @@
 import Poulpy.Lemmas.CkksValue
+import Poulpy.Lemmas.CkksProg
+import Poulpy.Lemmas.CkksContract
 /-!
 # C16 — the CKKS evaluator tracks precision metadata through any straight-line program
 
@@ -512,5 +514,334 @@ theorem mul_value (env : Env) (dst a b : Ct) (q : MulP) (h : mulCtParams env dst
 example : mulCtParams env52 ⟨⟨0, 0⟩, 5⟩ ⟨⟨32, 124⟩, 3⟩ ⟨⟨40, 116⟩, 3⟩ = .ok ⟨76, 32, 164⟩ := by rfl
 
 end Value
+
+/-! ## 8. exact value semantics on the data-path model
+
+§7 states the scale identities in an arbitrary ring, *modulo* the core phase theorems.  Here they are
+composed with them.  `Model/CkksData.lean` gives every linear ciphertext operation its data path — the
+sequence of `Core.Ops` calls the Rust makes, with the shift amounts of `Model/Ckks.lean` — next to the
+metadata transition of `Model/Ckks.lean`; `pdriver ckks` executes both and `./check C16` compares the limbs
+after every call with the real library (`--dump-ct`).
+
+* `decC s c t` — the **value** of coefficient `t` of `c` under the secret `s`: the exact phase
+  `body + Σ sᵢ ⋆ maskᵢ` (integers, no wrap: `Core.Ops.phase`, `Core.valCoeff`) read on `base2k·size` bits,
+  times `2^log_budget`.  The message `decode` returns is `decC` reduced modulo `wrap c = 2^log_budget`,
+  rounded to `log_delta` fractional bits.
+* `Near x y m ε` — `x = y + e + q·m` with `q ∈ ℤ`, `|e| ≤ ε`.
+* `ulp c = 2^log_budget / 2^(base2k·size)` — one unit of the last limb of `c` at the scale of the value;
+  `sn r s = 1 + Σ_{i<r} ‖sᵢ‖₁` — every rounding of a limb column reaches the phase through the secret.
+* `DOK env N r c` — degree `N`, the evaluator's radix, rank `r`, all limbs balanced (`|x| ≤ 2^(base2k-1)`):
+  what `encrypt` and every operation below return.  `EnvOK env`: `1 ≤ base2k ≤ 61`.
+
+Every theorem: **whenever the metadata model returns `Ok m`** (the `_err_iff` theorems of §2 say exactly
+when), the data path returns `Ok c'` with `c'.ct = m`, `c'` is again `DOK`, and the value of `c'` is the
+real-number operation on the values of the operands, modulo `wrap c'`, within an explicit number of `ulp c'`.
+No hypothesis on intermediate ciphertexts: their head-room is derived (`Lemmas/CkksBound.lean`).
+Float slot encoding / decoding (`encode_reim`, `decode_reim`: an FFT in `f64`/`f128`) stays
+correspondence-only: the theorems are about coefficient polynomials. -/
+
+section Exact
+open Core Core.Ops Ckks.Sem Ckks.CoreSem
+
+/-- radix `2^4`, degree 2, rank 1: the parameters of the examples -/
+def env4 : Env := ⟨4, [1], 53⟩
+def env4_ok : EnvOK env4 := ⟨by decide, by decide⟩
+
+/-- three limbs, `log_delta = 4`, `log_budget = 8` -/
+def xA : DCt := ⟨{ base2k := 4, k := 12, n := 2, cols := [[[1, 2], [3, -4], [5, 6]], [[7, -8], [1, 0], [2, 2]]] }, ⟨4, 8⟩⟩
+/-- two limbs, `log_delta = 4`, `log_budget = 4` -/
+def xB : DCt := ⟨{ base2k := 4, k := 8, n := 2, cols := [[[-3, 5], [2, -1]], [[2, -1], [0, 3]]] }, ⟨4, 4⟩⟩
+/-- a destination of two limbs -/
+def xD : DCt := ⟨{ base2k := 4, k := 8, n := 2, cols := [[[0, 0], [0, 0]], [[7, 7], [7, 7]]] }, ⟨0, 0⟩⟩
+
+def xA_ok : DOK env4 2 1 xA := ⟨by decide, rfl, rfl, by decide⟩
+def xB_ok : DOK env4 2 1 xB := ⟨by decide, rfl, rfl, by decide⟩
+def xD_ok : DOK env4 2 1 xD := ⟨by decide, rfl, rfl, by decide⟩
+
+/-- **add / sub, out of place**: `val(c') = val(a) ± val(b)` within `2·(1+Σ‖sᵢ‖₁)` units of the last limb of
+`c'` (one for the aligned copy of one operand, one for the fused shift-accumulate of the other; the equal-budget
+branch loses at most one unit per operand longer than the destination) -/
+theorem add_into_sem {env : Env} (he : EnvOK env) {N r : Nat} {dst a b : DCt} (hd : DOK env N r dst)
+    (ha : DOK env N r a) (hb : DOK env N r b) (sub : Bool) {m : Ct} (hm : addCtInto env dst.ct a.ct b.ct = .ok m) :
+    ∃ c', dAddInto env N sub dst a b = .ok c' ∧ c'.ct = m ∧ DOK env N r c' ∧
+      ∀ s t, t < N → Near (decC s c' t) (decC s a t + sg sub * decC s b t) (wrap c') (2 * sn r s * ulp c') :=
+  dAddInto_sem he hd ha hb sub hm
+
+/-- the shifted branch (budgets 8 and 4, three limbs into two) and the subtraction -/
+example : ∃ c', dAddInto env4 2 false xD xA xB = .ok c' ∧ c'.md = ⟨4, 4⟩ ∧
+    ∀ s t, t < 2 → Near (decC s c' t) (decC s xA t + decC s xB t) (2 ^ 4) (2 * sn 1 s * ulp c') := by
+  obtain ⟨c', h, hc, _, hv⟩ := add_into_sem env4_ok xD_ok xA_ok xB_ok false (m := ⟨⟨4, 4⟩, 2⟩) (by decide)
+  have hmd : c'.md = ⟨4, 4⟩ := by have := congrArg Ct.md hc; simpa [DCt.ct] using this
+  refine ⟨c', h, hmd, fun s t ht => ?_⟩
+  have := hv s t ht
+  simpa [sg, wrap, hmd] using this
+
+/-- **add / sub, in place** -/
+theorem add_assign_sem {env : Env} (he : EnvOK env) {N r : Nat} {dst a : DCt} (hd : DOK env N r dst)
+    (ha : DOK env N r a) (sub : Bool) {m : Ct} (hm : addCtAssign env dst.ct a.ct = .ok m) :
+    ∃ c', dAddAssign env N sub dst a = .ok c' ∧ c'.ct = m ∧ DOK env N r c' ∧
+      ∀ s t, t < N → Near (decC s c' t) (decC s dst t + sg sub * decC s a t) (wrap c') (sn r s * ulp c') :=
+  dAddAssign_sem he hd ha sub hm
+
+example : ∃ c', dAddAssign env4 2 true xB xA = .ok c' ∧ c'.ct = ⟨⟨4, 4⟩, 2⟩ :=
+  let ⟨c', h, hc, _⟩ := add_assign_sem env4_ok xB_ok xA_ok true (m := ⟨⟨4, 4⟩, 2⟩) (by decide)
+  ⟨c', h, hc⟩
+
+/-- **negation, out of place** (`trl … = 0` when the operand fits the destination: exact) -/
+theorem neg_into_sem {env : Env} (he : EnvOK env) {N r : Nat} {dst a : DCt} (hd : DOK env N r dst)
+    (ha : DOK env N r a) {m : Ct} (hm : negInto env dst.ct a.ct = .ok m) :
+    ∃ c', dNegInto env N dst a = .ok c' ∧ c'.ct = m ∧ DOK env N r c' ∧
+      ∀ s t, t < N → Near (decC s c' t) (- decC s a t) (wrap c')
+        (sn r s * trl env.base2k dst.g.size a.g.size (unaryShift env dst.ct a.ct 0) * ulp c') :=
+  dNegInto_sem he hd ha hm
+
+example : ∃ c', dNegInto env4 2 xD xA = .ok c' ∧ c'.ct = ⟨⟨4, 4⟩, 2⟩ :=
+  let ⟨c', h, hc, _⟩ := neg_into_sem env4_ok xD_ok xA_ok (m := ⟨⟨4, 4⟩, 2⟩) (by decide)
+  ⟨c', h, hc⟩
+
+/-- **negation, in place**: exact -/
+theorem neg_assign_sem {env : Env} (he : EnvOK env) {N r : Nat} {c : DCt} (hc : DOK env N r c) :
+    ∃ c', dNegAssign env N c = .ok c' ∧ c'.ct = c.ct ∧ DOK env N r c' ∧
+      ∀ s t, t < N → Near (decC s c' t) (- decC s c t) (wrap c') 0 :=
+  dNegAssign_sem he hc
+
+example : ∃ c', dNegAssign env4 2 xA = .ok c' ∧ ∀ s t, t < 2 → Near (decC s c' t) (- decC s xA t) (wrap c') 0 :=
+  let ⟨c', h, _, _, hv⟩ := neg_assign_sem env4_ok xA_ok
+  ⟨c', h, hv⟩
+
+/-- **multiplication by `2^bits`, out of place** -/
+theorem mul_pow2_into_sem {env : Env} (he : EnvOK env) {N r : Nat} {dst a : DCt} (hd : DOK env N r dst)
+    (ha : DOK env N r a) (bits : Nat) {m : Ct} (hm : mulPow2Into env dst.ct a.ct bits = .ok m) :
+    ∃ c', dMulPow2Into env N dst a bits = .ok c' ∧ c'.ct = m ∧ DOK env N r c' ∧
+      ∀ s t, t < N → Near (decC s c' t) (decC s a t * 2 ^ bits) (wrap c')
+        (sn r s * trl env.base2k dst.g.size a.g.size (unaryShift env dst.ct a.ct bits) * ulp c') :=
+  dMulPow2Into_sem he hd ha bits hm
+
+example : ∃ c', dMulPow2Into env4 2 xD xA 3 = .ok c' ∧ c'.ct = ⟨⟨4, 4⟩, 2⟩ :=
+  let ⟨c', h, hc, _⟩ := mul_pow2_into_sem env4_ok xD_ok xA_ok 3 (m := ⟨⟨4, 4⟩, 2⟩) (by decide)
+  ⟨c', h, hc⟩
+
+/-- **multiplication by `2^bits`, in place**: exact (modulo `wrap`: the bits shifted out at the top are whole
+multiples of it) -/
+theorem mul_pow2_assign_sem {env : Env} (he : EnvOK env) {N r : Nat} {c : DCt} (hc : DOK env N r c) (bits : Nat) :
+    ∃ c', dMulPow2Assign env N c bits = .ok c' ∧ c'.ct = c.ct ∧ DOK env N r c' ∧
+      ∀ s t, t < N → Near (decC s c' t) (decC s c t * 2 ^ bits) (wrap c') 0 :=
+  dMulPow2Assign_sem he hc bits
+
+example : ∃ c', dMulPow2Assign env4 2 xA 5 = .ok c' ∧ ∀ s t, t < 2 → Near (decC s c' t) (decC s xA t * 2 ^ 5) (wrap c') 0 :=
+  let ⟨c', h, _, _, hv⟩ := mul_pow2_assign_sem env4_ok xA_ok 5
+  ⟨c', h, hv⟩
+
+/-- **division by `2^bits`, out of place** -/
+theorem div_pow2_into_sem {env : Env} (he : EnvOK env) {N r : Nat} {dst a : DCt} (hd : DOK env N r dst)
+    (ha : DOK env N r a) (bits : Nat) {m : Ct} (hm : divPow2Into env dst.ct a.ct bits = .ok m) :
+    ∃ c', dDivPow2Into env N dst a bits = .ok c' ∧ c'.ct = m ∧ DOK env N r c' ∧
+      ∀ s t, t < N → Near (decC s c' t) (decC s a t / 2 ^ bits) (wrap c')
+        (sn r s * trl env.base2k dst.g.size a.g.size (unaryShift env dst.ct a.ct 0) * ulp c') :=
+  dDivPow2Into_sem he hd ha bits hm
+
+example : ∃ c', dDivPow2Into env4 2 xD xA 2 = .ok c' ∧ c'.ct = ⟨⟨6, 2⟩, 2⟩ :=
+  let ⟨c', h, hc, _⟩ := div_pow2_into_sem env4_ok xD_ok xA_ok 2 (m := ⟨⟨6, 2⟩, 2⟩) (by decide)
+  ⟨c', h, hc⟩
+
+/-- **division by `2^bits`, in place**: no data is touched, the value is divided exactly (an equality of
+rationals, not only modulo `wrap`) -/
+theorem div_pow2_assign_sem {env : Env} {N r : Nat} {c : DCt} (hc : DOK env N r c) (bits : Nat)
+    {m : Ct} (hm : divPow2Assign env c.ct bits = .ok m) :
+    ∃ c', dDivPow2Assign env N c bits = .ok c' ∧ c'.ct = m ∧ DOK env N r c' ∧
+      ∀ s t, decC s c' t = decC s c t / 2 ^ bits :=
+  dDivPow2Assign_sem hc bits hm
+
+example : ∃ c', dDivPow2Assign env4 2 xA 3 = .ok c' ∧ ∀ s t, decC s c' t = decC s xA t / 2 ^ 3 :=
+  let ⟨c', h, _, _, hv⟩ := div_pow2_assign_sem (env := env4) xA_ok 3 (m := ⟨⟨4, 5⟩, 3⟩) (by decide)
+  ⟨c', h, hv⟩
+
+/-- **rescale, out of place** -/
+theorem rescale_into_sem {env : Env} (he : EnvOK env) {N r : Nat} {dst src : DCt} (hd : DOK env N r dst)
+    (hs : DOK env N r src) (k : Nat) {m : Ct} (hm : rescaleInto env dst.ct k src.ct = .ok m) :
+    ∃ c', dRescaleInto env N dst k src = .ok c' ∧ c'.ct = m ∧ DOK env N r c' ∧
+      ∀ s t, t < N → Near (decC s c' t) (decC s src t) (wrap c')
+        (sn r s * trl env.base2k dst.g.size src.g.size (rescaleIntoShift env dst.ct k src.ct) * ulp c') :=
+  dRescaleInto_sem he hd hs k hm
+
+example : ∃ c', dRescaleInto env4 2 xD 2 xA = .ok c' ∧ c'.ct = ⟨⟨4, 4⟩, 2⟩ :=
+  let ⟨c', h, hc, _⟩ := rescale_into_sem env4_ok xD_ok xA_ok 2 (m := ⟨⟨4, 4⟩, 2⟩) (by decide)
+  ⟨c', h, hc⟩
+
+/-- **rescale, in place**: the value is unchanged, exactly; only the modulus `wrap` shrinks -/
+theorem rescale_assign_sem {env : Env} (he : EnvOK env) {N r : Nat} {c : DCt} (hc : DOK env N r c) (k : Nat)
+    {m : Ct} (hm : rescaleAssign env c.ct k = .ok m) :
+    ∃ c', dRescaleAssign env N c k = .ok c' ∧ c'.ct = m ∧ DOK env N r c' ∧
+      ∀ s t, t < N → Near (decC s c' t) (decC s c t) (wrap c') 0 :=
+  dRescaleAssign_sem he hc k hm
+
+example : ∃ c', dRescaleAssign env4 2 xA 3 = .ok c' ∧ ∀ s t, t < 2 → Near (decC s c' t) (decC s xA t) (wrap c') 0 :=
+  let ⟨c', h, _, _, hv⟩ := rescale_assign_sem env4_ok xA_ok 3 (m := ⟨⟨4, 5⟩, 3⟩) (by decide)
+  ⟨c', h, hv⟩
+
+/-- **one call on a pool**: metadata tie, well-formedness and value tracking (`Tracks`: every slot `j` decodes
+to the plaintext `M j` within `E j`; `specM` is the call on plaintext coefficient vectors, `specE` adds the
+call's own roundings — `2·σ·u` for an out-of-place addition, `σ·u` for the other rounding calls, `0` for the
+exact ones — to the operands' budgets carried through the call's linear map) -/
+theorem step_sem {env : Env} (he : EnvOK env) {N r : Nat} {pool : DPool} (hp : AllOK env N r pool) (op : LOp)
+    {mp : Ckks.Pool} (hm : stepR env (DPool.cts pool) op.toOp = .ok mp) :
+    ∃ pool', dstep env N pool op = .ok pool' ∧ DPool.cts pool' = mp ∧ AllOK env N r pool' ∧
+      ∀ s M E, Tracks s N pool M E →
+        Tracks s N pool' (specM M op) (specE (sn r s) (ulpAt env mp op.dst) E op) :=
+  dstep_sem he hp op hm
+
+/-- **programs**: by induction over the call list.  The decoded result is the program on the plaintext
+polynomials up to `specRun … .2`: the sum over the calls of their own roundings (in units of the last limb of
+*their* result, times `1 + Σ‖sᵢ‖₁`) multiplied by the gain of the calls that follow (`2^bits` for
+`mul_pow2`, `2^-bits` for `div_pow2`, `1` otherwise) -/
+theorem program_sem {env : Env} (he : EnvOK env) {N r : Nat} (ops : List LOp) {pool : DPool} (hp : AllOK env N r pool)
+    {mp : Ckks.Pool} (hm : run env (DPool.cts pool) (ops.map LOp.toOp) = .ok mp) :
+    ∃ pool', drun env N pool ops = .ok pool' ∧ DPool.cts pool' = mp ∧ AllOK env N r pool' ∧
+      ∀ s M E, Tracks s N pool M E →
+        Tracks s N pool' (specRun env (sn r s) (DPool.cts pool) M E ops).1 (specRun env (sn r s) (DPool.cts pool) M E ops).2 :=
+  drun_sem he ops hp hm
+
+def pool4_ok : AllOK env4 2 1 [xA, xB, xD] := by
+  intro c hc
+  simp only [List.mem_cons, List.mem_nil_iff, or_false] at hc
+  rcases hc with rfl | rfl | rfl
+  · exact xA_ok
+  · exact xB_ok
+  · exact xD_ok
+
+/-- `d ← a + b; d ← −d; d ← d·2^1; b ← rescale(b, 1); d ← d − b` on three slots: the data path runs, with the
+metadata of the metadata model, and slot 2 decodes to `−2(a+b) − b` within
+`σ·(2·2·u₁ + u₅) + 2·E_a + 3·E_b` (`u₁ = 2^4/2^8`, `u₅ = 2^3/2^8`: the addition's two roundings are doubled by
+the later `·2`, the final subtraction adds one; the operands' budgets pass with gains 2 and 3) -/
+example : ∃ pool', drun env4 2 [xA, xB, xD] [.add false 2 0 1, .negAssign 2, .mulPow2Assign 2 1, .rescaleAssign 1 1,
+      .addAssign true 2 1] = .ok pool' ∧
+    DPool.cts pool' = [⟨⟨4, 8⟩, 3⟩, ⟨⟨4, 3⟩, 2⟩, ⟨⟨4, 3⟩, 2⟩] ∧
+    ∀ s M E, Tracks s 2 [xA, xB, xD] M E → ∀ c, pool'[2]? = some c → ∀ t, t < 2 →
+      Near (decC s c t) (1 * (2 ^ 1 * (-1 * (1 * M 0 t + 1 * M 1 t))) + -1 * (1 * M 1 t)) (wrap c)
+        (sn 1 s * (2 * (2 * (2 ^ 4 / 2 ^ 8)) + 2 ^ 3 / 2 ^ 8) + 2 * E 0 + 3 * E 1) := by
+  obtain ⟨pool', h, hc, _, hv⟩ := program_sem env4_ok [.add false 2 0 1, .negAssign 2, .mulPow2Assign 2 1,
+    .rescaleAssign 1 1, .addAssign true 2 1] pool4_ok (mp := ([⟨⟨4, 8⟩, 3⟩, ⟨⟨4, 3⟩, 2⟩, ⟨⟨4, 3⟩, 2⟩] : Ckks.Pool)) (by decide)
+  refine ⟨pool', h, hc, fun s M E ht c hc t htN => ?_⟩
+  have := hv s M E ht 2 c hc t htN
+  have h1 : stepR env4 (DPool.cts [xA, xB, xD]) (LOp.add false 2 0 1).toOp = .ok [⟨⟨4, 8⟩, 3⟩, ⟨⟨4, 4⟩, 2⟩, ⟨⟨4, 4⟩, 2⟩] := by decide
+  have h2 : stepR env4 [⟨⟨4, 8⟩, 3⟩, ⟨⟨4, 4⟩, 2⟩, ⟨⟨4, 4⟩, 2⟩] (LOp.negAssign 2).toOp = .ok [⟨⟨4, 8⟩, 3⟩, ⟨⟨4, 4⟩, 2⟩, ⟨⟨4, 4⟩, 2⟩] := by decide
+  have h3 : stepR env4 [⟨⟨4, 8⟩, 3⟩, ⟨⟨4, 4⟩, 2⟩, ⟨⟨4, 4⟩, 2⟩] (LOp.mulPow2Assign 2 1).toOp = .ok [⟨⟨4, 8⟩, 3⟩, ⟨⟨4, 4⟩, 2⟩, ⟨⟨4, 4⟩, 2⟩] := by decide
+  have h4 : stepR env4 [⟨⟨4, 8⟩, 3⟩, ⟨⟨4, 4⟩, 2⟩, ⟨⟨4, 4⟩, 2⟩] (LOp.rescaleAssign 1 1).toOp = .ok [⟨⟨4, 8⟩, 3⟩, ⟨⟨4, 3⟩, 2⟩, ⟨⟨4, 4⟩, 2⟩] := by decide
+  have h5 : stepR env4 [⟨⟨4, 8⟩, 3⟩, ⟨⟨4, 3⟩, 2⟩, ⟨⟨4, 4⟩, 2⟩] (LOp.addAssign true 2 1).toOp = .ok [⟨⟨4, 8⟩, 3⟩, ⟨⟨4, 3⟩, 2⟩, ⟨⟨4, 3⟩, 2⟩] := by decide
+  have eM : (specRun env4 (sn 1 s) (DPool.cts [xA, xB, xD]) M E [.add false 2 0 1, .negAssign 2, .mulPow2Assign 2 1,
+      .rescaleAssign 1 1, .addAssign true 2 1]).1 2 t
+      = 1 * (2 ^ 1 * (-1 * (1 * M 0 t + 1 * M 1 t))) + -1 * (1 * M 1 t) := by
+    simp only [specRun, h1, h2, h3, h4, h5, specM, upd, sg]
+    simp
+  have eE : (specRun env4 (sn 1 s) (DPool.cts [xA, xB, xD]) M E [.add false 2 0 1, .negAssign 2, .mulPow2Assign 2 1,
+      .rescaleAssign 1 1, .addAssign true 2 1]).2 2
+      = sn 1 s * (2 * (2 * (2 ^ 4 / 2 ^ 8)) + 2 ^ 3 / 2 ^ 8) + 2 * E 0 + 3 * E 1 := by
+    simp only [specRun, h1, h2, h3, h4, h5, specE, upd, LOp.dst, ulpAt, ulpM]
+    simp [env4]
+    ring
+  rw [eM, eE] at this
+  exact this
+
+/-! ### operations whose data path belongs to other slices: contracts
+
+The data paths of rotation / conjugation (C03: automorphism + key switch), of the multiplications (C05: tensor
+product, relinearisation, plaintext and constant products) and of the plaintext addends (`vec_znx_rsh_add_into`,
+the kernel behind `C02.rsh_phase`) are not re-modelled here.  Their value theorems take the integer phase
+relation of the executed core call as a **hypothesis structure** (`AutContract`, `ProdContract`, `PtAddContract`:
+the shapes in which C02 states its `lsh` family, with the signed permutation resp. the exact negacyclic product
+`Hal.negMul` of C05's `tensor_phase` inside) and conclude, with the metadata of the metadata model, what the
+result decodes to.  `U` — the number of units of the result's last limb the core call may be off by (its
+truncations times `1 + Σ‖sᵢ‖₁`, plus the key-switching noise `C03.keyswitch_value` bounds) — is a parameter. -/
+
+/-- **ct × ct, relinearised**: `decP c' = decP a ⋆ decP b` (negacyclic product of the decoded polynomials),
+modulo `wrap c'`, within `U·ulp c'`; the scale bookkeeping is `mul_scale_consistent` -/
+theorem mul_ct_sem {env : Env} {N : Nat} {dst a b c' : DCt} {m : Ct} (hm : mulInto env dst.ct a.ct b.ct = .ok m)
+    (hmd : c'.md = m.md) {s : List Poly} {U : ℚ}
+    (hc : ∀ q, mulCtParams env dst.ct a.ct b.ct = .ok q →
+      ProdContract s N c'.g a.g (phaseP s N b.g) (b.g.base2k * b.g.size) q.cnv U) :
+    ∀ t, t < N → Near (decC s c' t) ((qNegMul (decP s N a) (decP s N b)).getD t 0) (wrap c') (U * ulp c') :=
+  Ckks.mul_ct_sem hm hmd hc
+
+/-- one limb, `log_delta = 0`, `log_budget = 4`, body `2`, no mask: under the empty secret its phase is `2` -/
+def xTwo : DCt := ⟨{ base2k := 4, k := 4, n := 2, cols := [[[2, 0]], [[0, 0]]] }, ⟨0, 4⟩⟩
+/-- the product of `xA` and `xTwo` at `cnv_offset = 12` on one limb: phase `2·phase(xA)` under the empty secret -/
+def xProd : DCt := ⟨{ base2k := 4, k := 4, n := 2, cols := [[[618, 908]], [[0, 0]]] }, ⟨0, 0⟩⟩
+
+example : ∀ t, t < 2 → Near (decC [] xProd t) ((qNegMul (decP [] 2 xA) (decP [] 2 xTwo)).getD t 0) (wrap xProd) (0 * ulp xProd) :=
+  mul_ct_sem (env := env4) (dst := xProd) (a := xA) (b := xTwo) (m := ⟨⟨0, 0⟩, 1⟩) (by decide) rfl
+    (fun q hq => by
+      have : q = ⟨0, 0, 12⟩ := by
+        have h : mulCtParams env4 xProd.ct xA.ct xTwo.ct = .ok ⟨0, 0, 12⟩ := by decide
+        rw [h] at hq; injection hq with hq; exact hq.symm
+      subst this
+      exact ⟨fun t ht => by
+        have : t = 0 ∨ t = 1 := by omega
+        rcases this with rfl | rfl <;> exact ⟨0, 0, by decide, by simp⟩⟩)
+
+/-- **ct × ZNX plaintext** (the RNX plaintext and the constants reach the same core call through `to_znx`):
+`Y` = integer coefficients of the plaintext on `pt.max_k` bits, message `Y / 2^log_delta` -/
+theorem mul_pt_sem {env : Env} {N : Nat} {dst a c' : DCt} {pt : Pt} {q : MulP}
+    (hq : mulPtParams env dst.ct a.ct pt.md pt.maxK = .ok q) (hmd : c'.md = ⟨q.delta, q.budget⟩)
+    (hfit : pt.md.logDelta ≤ pt.maxK) {s : List Poly} {U : ℚ} {Y : Poly}
+    (hc : ProdContract s N c'.g a.g Y pt.maxK q.cnv U) :
+    ∀ t, t < N → Near (decC s c' t)
+      ((qNegMul (decP s N a) (qScale (1 / 2 ^ pt.md.logDelta) (castP Y))).getD t 0) (wrap c') (U * ulp c') :=
+  Ckks.mul_pt_sem hq hmd hfit hc
+
+/-- `xA` times the constant plaintext `2` (one limb, `log_delta = 0`): limbs doubled -/
+def xDbl : DCt := ⟨{ base2k := 4, k := 12, n := 2, cols := [[[2, 4], [6, -8], [10, 12]], [[14, -16], [2, 0], [4, 4]]] }, ⟨4, 8⟩⟩
+
+example : ∀ t, t < 2 → Near (decC [] xDbl t)
+    ((qNegMul (decP [] 2 xA) (qScale (1 / 2 ^ 0) (castP [2, 0]))).getD t 0) (wrap xDbl) (0 * ulp xDbl) :=
+  mul_pt_sem (env := env4) (dst := xDbl) (a := xA) (pt := ⟨⟨0, 4⟩, 4⟩) (q := ⟨8, 4, 4⟩) (by decide) rfl (by decide)
+    ⟨fun t ht => by
+      have : t = 0 ∨ t = 1 := by omega
+      rcases this with rfl | rfl <;> exact ⟨0, 0, by decide, by simp⟩⟩
+
+/-- **rotation / conjugation, out of place**: coefficient `t` of the value is `σ t` times coefficient `π t` of the
+operand's (`X ↦ X^g`, `g = galois_element(k)` resp. `-1`) -/
+theorem rotate_into_sem {env : Env} {N : Nat} {dst a c' : DCt} {m : Ct} {kk : Int}
+    (hm : rotateInto env dst.ct a.ct kk = .ok m) (hmd : c'.md = m.md) {s : List Poly} {π : Nat → Nat} {σ : Nat → Int} {U : ℚ}
+    (hc : AutContract s N c'.g a.g π σ (unaryShift env dst.ct a.ct 0) U) :
+    ∀ t, t < N → Near (decC s c' t) (σ t * decC s a (π t)) (wrap c') (U * ulp c') :=
+  Ckks.rotate_into_sem hm hmd hc
+
+/-- **rotation / conjugation, in place** -/
+theorem rotate_assign_sem {N : Nat} {c c' : DCt} (hmd : c'.md = c.md) {s : List Poly} {π : Nat → Nat} {σ : Nat → Int} {U : ℚ}
+    (hc : AutContract s N c'.g c.g π σ 0 U) :
+    ∀ t, t < N → Near (decC s c' t) (σ t * decC s c (π t)) (wrap c') (U * ulp c') :=
+  Ckks.rotate_assign_sem hmd hc
+
+/-- the identity automorphism satisfies the contract for every ciphertext and every secret -/
+theorem aut_contract_id (s : List Poly) (N : Nat) (g : GLWE) : AutContract s N g g id (fun _ => 1) 0 0 :=
+  ⟨fun _ h => h, fun t _ => ⟨0, 0, by simp [pow_add], by simp⟩⟩
+
+example : ∀ s t, t < 2 → Near (decC s xA t) (1 * decC s xA t) (wrap xA) (0 * ulp xA) :=
+  fun s => rotate_assign_sem (c := xA) (c' := xA) rfl (σ := fun _ => 1) (aut_contract_id s 2 xA.g)
+
+example : ∀ s t, t < 2 → Near (decC s xA t) (1 * decC s xA t) (wrap xA) (0 * ulp xA) :=
+  fun s => rotate_into_sem (env := env4) (dst := xA) (a := xA) (c' := xA) (m := ⟨⟨4, 8⟩, 3⟩) (kk := 1) (by decide) rfl
+    (σ := fun _ => 1) (by
+      have h : unaryShift env4 xA.ct xA.ct 0 = 0 := by decide
+      rw [h]; exact aut_contract_id s 2 xA.g)
+
+/-- **plaintext / constant addend, in place** (`σ = ±1`: add / sub); the out-of-place form is
+`mul_pow2_into_sem` with `bits = 0` (the alignment copy) followed by this one -/
+theorem add_pt_assign_sem {env : Env} {N : Nat} {c c' : DCt} {pt : Pt} {m : Ct} (hm : ptAlign env c.ct pt = .ok m)
+    (hmd : c'.md = c.md) {s : List Poly} {Y : Poly} {σ : Int} {U : ℚ}
+    (hc : PtAddContract s N c'.g c.g Y σ pt.maxK (ptShift c.ct pt) U) :
+    ∀ t, t < N → Near (decC s c' t) (decC s c t + σ * ((Y.getD t 0 : Int) / 2 ^ pt.md.logDelta)) (wrap c') (U * ulp c') :=
+  Ckks.add_pt_assign_sem hm hmd hc
+
+/-- `xB` plus the plaintext `1` (`log_delta = 4`, two limbs: coefficients `[16, 0]`) -/
+def xBp : DCt := ⟨{ base2k := 4, k := 8, n := 2, cols := [[[-2, 5], [2, -1]], [[2, -1], [0, 3]]] }, ⟨4, 4⟩⟩
+
+example : ∀ t, t < 2 → Near (decC [] xBp t) (decC [] xB t + 1 * ((([16, 0] : Poly).getD t 0 : Int) / 2 ^ 4)) (wrap xBp) (0 * ulp xBp) :=
+  add_pt_assign_sem (env := env4) (c := xB) (c' := xBp) (pt := ⟨⟨4, 4⟩, 4⟩) (m := xB.ct) (by decide) rfl
+    ⟨⟨rfl, rfl⟩, fun t ht => by
+      have : t = 0 ∨ t = 1 := by omega
+      rcases this with rfl | rfl <;> exact ⟨0, 0, by decide, by simp⟩⟩
+
+end Exact
 
 end C16
